@@ -69,6 +69,22 @@ fn texts(t: FT) -> Vec<(String, Option<J>)> {
 			for s in ["closed", "hlc4", "ohlc4", "volumed price", "t p"] {
 				v.push((s.into(), None));
 			}
+			// one-bit neighbours of every canonical name: only ASCII case variants may be accepted
+			let names = ["close", "open", "high", "low", "hl2", "tp", "hlc3", "volume", "volumed_price"];
+			for nm in names {
+				let b = nm.as_bytes();
+				for i in 0..b.len() {
+					for k in 0..8 {
+						let mut x = b.to_vec();
+						x[i] ^= 1 << k;
+						let Ok(t) = String::from_utf8(x) else { continue };
+						let canon = t.trim().to_ascii_lowercase();
+						if !names.contains(&canon.as_str()) && !v.iter().any(|e: &(String, Option<J>)| e.0 == t) {
+							v.push((t, None));
+						}
+					}
+				}
+			}
 		}
 		FT::Ma => {
 			for (txt, js) in MA_NAMES {
